@@ -150,53 +150,7 @@ func c15names(c *an.Ctx) {
 	// getTopicChan: success returns only validated names (channel: validated or empty) – per path, so that a single-exit
 	// spelling (names blanked and err set, one return) is judged like the early-return one
 	{
-		validated := func(pred *ssa.Function, emptyOK bool) func(e an.Edge, st *an.PathState) bool {
-			return func(e an.Edge, st *an.PathState) bool {
-				for _, f := range st.FactsOnEdge(e) {
-					if call, ok := f.V.(*ssa.Call); ok && f.True && an.IsCallTo(call, pred) {
-						return true
-					}
-					if cmp, ok := f.AsCmp(); ok && emptyOK && cmp.Op == token.EQL {
-						if s, ok := an.ConstString(cmp.Y); ok && s == "" {
-							return true
-						}
-					}
-				}
-				return false
-			}
-		}
-		q1 := &an.PathQ{Fn: gtc, StartEntry: true, AllAlias: true, Sink: sinkSuccessReturn, CutEdge: validated(vt, false)}
-		w1, f1 := q1.Find()
-		q2 := &an.PathQ{Fn: gtc, StartEntry: true, AllAlias: true, Sink: sinkSuccessReturn, CutEdge: validated(vc, true)}
-		w2, f2 := q2.Find()
-		// what is validated is what is returned
-		same := func(idx int, pred *ssa.Function) bool {
-			for _, rc := range returnCases(gtc, idx) {
-				if _, isC := rc.val.(*ssa.Const); isC {
-					continue
-				}
-				ok := false
-				for _, vcall := range an.CallsTo(gtc, pred) {
-					if an.SameValue(vcall.Common().Args[0], rc.val) {
-						ok = true
-					}
-					for _, o := range an.Origins(vcall.Common().Args[0]) {
-						if o == rc.val || an.SameValue(o, rc.val) {
-							ok = true
-						}
-					}
-				}
-				if !ok {
-					return false
-				}
-			}
-			return true
-		}
-		okT, okC := !f1 && same(0, vt), !f2 && same(1, vc)
-		w := w1
-		if okT {
-			w = w2
-		}
+		okT, okC, w := namesValidatedOnPaths(gtc, vt, vc, true)
 		if okT && okC {
 			c.OK(gtc, "getTopicChan returns validated names", gtc.Pos(), "")
 		} else {
@@ -552,4 +506,56 @@ func c15identity(c *an.Ctx) {
 		})
 	}
 	c.Check(n >= 1, nil, "PeerInfo.id assigned from the connection", idF.Pos(), "", "no assignment of PeerInfo.id found")
+}
+
+// namesValidatedOnPaths: every path of fn to a success return passes an edge on which vt (result 0) and vc (result 1) held –
+// for the channel optionally the edge `== ""` – and what is validated is what is returned.
+func namesValidatedOnPaths(fn, vt, vc *ssa.Function, emptyChanOK bool) (okT, okC bool, witness []string) {
+	validated := func(pred *ssa.Function, emptyOK bool) func(e an.Edge, st *an.PathState) bool {
+		return func(e an.Edge, st *an.PathState) bool {
+			for _, f := range st.FactsOnEdge(e) {
+				if call, ok := f.V.(*ssa.Call); ok && f.True && an.IsCallTo(call, pred) {
+					return true
+				}
+				if cmp, ok := f.AsCmp(); ok && emptyOK && cmp.Op == token.EQL {
+					if s, ok := an.ConstString(cmp.Y); ok && s == "" {
+						return true
+					}
+				}
+			}
+			return false
+		}
+	}
+	q1 := &an.PathQ{Fn: fn, StartEntry: true, AllAlias: true, Sink: sinkSuccessReturn, CutEdge: validated(vt, false)}
+	w1, f1 := q1.Find()
+	q2 := &an.PathQ{Fn: fn, StartEntry: true, AllAlias: true, Sink: sinkSuccessReturn, CutEdge: validated(vc, emptyChanOK)}
+	w2, f2 := q2.Find()
+	same := func(idx int, pred *ssa.Function) bool {
+		for _, rc := range returnCases(fn, idx) {
+			if _, isC := rc.val.(*ssa.Const); isC {
+				continue
+			}
+			ok := false
+			for _, vcall := range an.CallsTo(fn, pred) {
+				if an.SameValue(vcall.Common().Args[0], rc.val) {
+					ok = true
+				}
+				for _, o := range an.Origins(vcall.Common().Args[0]) {
+					if o == rc.val || an.SameValue(o, rc.val) {
+						ok = true
+					}
+				}
+			}
+			if !ok {
+				return false
+			}
+		}
+		return true
+	}
+	okT, okC = !f1 && same(0, vt), !f2 && same(1, vc)
+	witness = w1
+	if okT {
+		witness = w2
+	}
+	return
 }
